@@ -81,6 +81,9 @@ _CMPOPS = {
 }
 
 
+QUANT_RLIMIT = 100000      # z3 resource units for the quick refutation attempt with quantified facts
+
+
 class Engine:
     def __init__(self, schema, enums=None, contracts=None, inline=(), loops=None, class_attrs=None,
                  timeout_ms=10000, max_inline_depth=6):
@@ -101,9 +104,12 @@ class Engine:
     def new_state(self):
         return State(self.schema, self.classids)
 
-    def check(self, assertions, timeout_ms=None):
+    def check(self, assertions, timeout_ms=None, rlimit=None):
         s = z3.Solver()
         s.set("timeout", timeout_ms or self.timeout_ms)
+        if rlimit:
+            # a resource (not wall-clock) budget: the same answer whatever else the machine is doing
+            s.set("rlimit", rlimit)
         for a in assertions:
             s.add(a)
         self.stats["feasibility_checks"] += 1
@@ -152,7 +158,7 @@ class Engine:
             return False
         if quant:
             # ... unless the solver refutes the path quickly with them (invariants often are what rules a path out)
-            r2, _ = self.check(cs + quant, 400)
+            r2, _ = self.check(cs + quant, 2000, rlimit=QUANT_RLIMIT)
             if r2 == z3.unsat:
                 return False
         return True
